@@ -237,4 +237,9 @@ example : selectFd { envThree with listenFds := some (str "foo") } 4242 = none :
     correspondence streams for an input on which the changed code violates the property. -/
 theorem modelled_code_unchanged : Varlink.Extracted.code_C20 = Varlink.ExpectedCode.code_C20 := by decide
 
+/-- no declaration (function, method, type, constant, variable) has been added to or removed from the
+    fingerprinted source files since the models were validated: a new method or `init` can change behaviour
+    without touching the text of any existing declaration -/
+theorem declarations_known : Varlink.Extracted.declarationSet = Varlink.ExpectedCode.declarationSet := by decide
+
 end Varlink.C20
